@@ -189,6 +189,27 @@ class C06(vlib.Check):
                     for m in MEASURES:
                         for form in ("fp-fp", "fp-db", "db-fp", "db-db", "dbarr-dbarr", "fprint_metrics"):
                             yield {"t": "metric", "m": m, "form": form, "a": a, "b": b, "seed": rng.randrange(10 ** 6)}
+        # float fingerprints of tiny magnitude (a fingerprint times a small weight: every count scaled by 2^-k): the measures
+        # are ratios, so every form must still return the definition's value - which is that of the unscaled pair
+        for _ in range(6 if self.tier == "quick" else 100):
+            bits = rng.choice([32, 1024])
+            sc = Fraction(1, 2 ** rng.choice([17, 20, 30, 40, 60]))
+            a = gen_fp(rng, "float", bits, level=5, maxn=8, style="sparse")
+            b = gen_fp(rng, "float", bits, level=5, maxn=8, style="sparse")
+            cur = vec(b)
+            for i in a["idx"][::2]:
+                cur[i] = vec(a)[i] * rng.choice([1, 2])
+            b = {"kind": "float", "bits": bits, "level": 5, "idx": sorted(cur), "cnt": [[i, str(cur[i])] for i in sorted(cur)]}
+            which = rng.choice(["both", "both", "a"])
+            for f in ((a, b) if which == "both" else (a,)):
+                f["cnt"] = [[i, str(Fraction(v) * sc)] for i, v in f["cnt"]]
+            self.count("tiny-magnitude-floats")
+            for m in MEASURES:
+                for form in FORMS:
+                    if form == "cosine-binary" or form in ("dense-nojit", "sparse-nojit"):
+                        continue
+                    yield {"t": "metric", "m": m, "form": form, "a": a, "b": b, "seed": rng.randrange(10 ** 6)}
+                    yield {"t": "metric", "m": m, "form": form, "a": a, "b": a, "seed": rng.randrange(10 ** 6)}
         # large unfolded fingerprints: fingerprint forms only
         for _ in range(n // 3):
             ka = rng.choice(KINDS)
